@@ -106,22 +106,33 @@ class C02(Property):
     level_text = ("Unbounded Rocq theorems over every configuration, every history of Allow/Pass/Fail with arbitrary clock "
                   "readings and every CPU trace: a shed implies (CPU reading >= threshold now, or an earlier shed and an "
                   "overloaded Allow less than coolOffDuration ago) and flying, avgFlying > 0.1 x capacity; overloaded with "
-                  "flying and avgFlying above capacity implies shed; flying = admitted - resolved; idle and disabled shedders never shed "
+                  "flying and avgFlying above capacity implies shed; both also for the k-th operation of any history with in-flight "
+                  "= admissions - resolutions and the average = EMA of that count over every resolution (Pass and Fail); flying = "
+                  "handed out - resolved >= 0 when no promise is named by two Pass/Fail operations; idle and disabled shedders never shed "
                   "(shed-only-if, shed-when-saturated, idle and conservation are also proved for every interleaving of the "
                   "atomic steps of concurrent calls, on the possibly stale values each call read); capacity "
-                  "= max(1, peak bucket pass count x min average latency x windowScale) over the buckets Reduce visits. "
-                  "The model is tied to core/load by differential execution of generated histories in a white-box overlay "
-                  "test with a virtual clock and an injected CPU gauge; constants are re-extracted from the source.")
+                  "= max(1, peak bucket pass count x min average latency x windowScale) over the buckets Reduce visits, windowScale "
+                  "= 10^6 / bucket duration for every bucket duration; the reference capacity prop_ok uses is proved equal to the model's. "
+                  "The model is tied to core/load, rest/handler and zrpc serverinterceptors by differential execution of generated "
+                  "scenarios (single shedder, several shedders with load.Disable() and a ShedderGroup, the REST / zRPC wrapper in front "
+                  "of one long-lived real shedder with overlapping requests) in overlay tests with a virtual clock and an injected CPU "
+                  "gauge; constants are re-extracted from the source.")
     level_note = ("Trusted: Coq kernel + vm_compute; hand-written model (exact rationals for float64, near-tie decisions "
-                  "skipped); correspondence on generated sequential histories only (the interleaving theorems rest on the "
+                  "skipped); correspondence executes every Allow/Pass/Fail one at a time (the interleaving theorems rest on the "
                   "atomicity of sync/atomic, the spin lock and the window's RWMutex); stat.CpuUsage() is an input.")
-    rule = ("histories: window 50ms..10s, 1..50 buckets (incl. bucket durations whose windowScale is a dyadic float), thresholds "
-            "around 900 and corner values, 20..110 Allow/Pass/Fail ops with clock gaps around bucket / cool-off / window "
-            "boundaries, CPU traces low/high/at-threshold/spiky, checker reading split from the factor reading in ~20%; "
-            "non-trivial = at least one shed, one Allow admitted while hot (overloaded or cooling off) and one completed "
-            "Pass; distinct = canonical JSON hash of the history")
+    rule = ("single-shedder histories: WithWindow x WithBuckets x WithCpuThreshold, each also left out; bucket durations dividing 1 s, "
+            "not dividing it (75 ms, 600 ms, random), above it (1.2 s, 2 s, 60 s), 1 ns..100 ns, 1..50 buckets; thresholds 900, corner "
+            "values 0 / 1 / -5 / 999 / 1000 (= cpuMax) / 1100 / 10^15; 20..160 Allow/Pass/Fail ops with clock gaps around bucket / cool-off "
+            "/ window boundaries (rarely 10^15 ns), CPU traces low/high/at-threshold/spiky/ramp, checker reading split from the factor "
+            "reading in ~20%, fail-heavy and multi-phase (overload - drain - pause - refill) families; multi: 2..4 shedders, a "
+            "ShedderGroup, Disable() between constructions, interleaved; wrest/wrpc: 20..90 start/finish events of overlapping "
+            "requests with every handler outcome class through the real wrapper and a real shedder; "
+            "non-trivial = (single) at least one shed, one Allow let in while hot and one completed Pass / (multi) two live shedders "
+            "with traffic and a shed / (wrapper) a shed, a Pass, a Fail and >= 3 requests in flight at once; distinct = canonical JSON "
+            "hash of the case")
     trusted_base = [
-        "model theories/C02/Model.v is hand-written; tie = white-box overlay test harness/overlay/load/verif_c02_test.go on generated histories",
+        "model theories/C02/Model.v is hand-written; tie = white-box overlay test harness/overlay/load/verif_c02_test.go on generated scenarios",
+        "wrapper scenarios: overlay tests in rest/handler and zrpc/internal/serverinterceptors drive the real wrapper + a real shedder; flying/avgFlying read by reflection on the field names",
         "overlay core/timex/relativetime.go (virtual clock) replaces the 17-line real file; overlay core/stat/verif_cpu.go adds a setter for the CPU gauge",
         "float64 arithmetic is modelled by exact rationals; decisions with relative margin < 2^-30 are not compared",
         "Lib/RollingWindow.v is the shared hand-written window model (compared here through maxPass()/minRt() before every Allow)",
